@@ -1,12 +1,1119 @@
-//! C18 — monitor not built yet (stub so that the registry is complete).
+//! C18 — constant-argument checkers (CWE560 umask, CWE467 sizeof-on-pointer) decide on the
+//! argument's actual value.
+//!
+//! Monitor shape: random call blocks compute every parameter of the called extern symbol from
+//! constants alone (assignments, copies, arithmetic, casts, stack round trips, push/pop). The
+//! reference interpreter `irx` executes the block and reads the parameter at the call; the real
+//! checkers run on the same program through the normal pipeline; warnings are compared per call site.
+
 use crate::core::*;
+use crate::irb::*;
+use crate::irx::{Ev, Machine, Observer, State as XState};
+use crate::pref::V;
+use crate::prng::Rng;
+use cwe_checker_lib::analysis::graph;
+use cwe_checker_lib::intermediate_representation::*;
+use cwe_checker_lib::pipeline::AnalysisResults;
+use cwe_checker_lib::utils::log::CweWarning;
+use serde_json::{json, Value};
+use std::collections::{BTreeMap, BTreeSet};
+use std::sync::OnceLock;
 
 pub fn info() -> CheckInfo {
     CheckInfo {
         id: "C18",
-        rule: "(monitor not built yet)",
-        assumptions: &[],
-        run: |_cfg| Report::new(),
-        replay: |_cfg, _case| Report::new(),
+        rule: "random single-function programs (optional preamble blocks, 1-3 call blocks, return block) for an x86-64 System-V project (register parameters as full or 4-byte sub-registers, one symbol with an additional stack parameter) and an x86-32 cdecl project (stack parameters, pushed or stored into the outgoing-argument area); every parameter of every call is computed in the call's block from constants alone: constant assignments, copies, + - & | ^ << >> s>> *, zero/sign extension and truncation, 4/8-byte stores to and loads from stack slots at constant offsets (one size per slot), push/pop, RSP copies as address base, interleaved with unrelated register noise; values steered to 0o177, 0o777 and the pointer size and their neighbours. Called symbols: umask, configured CWE467 symbols (malloc, memcpy, strncmp, strncpy, wmemcpy), one unconfigured symbol. Pipeline: normalize_basic (+ normalize_optimize in half the cases), CFG, function signatures, pointer inference, then CWE560::CWE_MODULE.run and CWE467::CWE_MODULE.run with the shipped config. Oracle per call site (warning tids/addresses = the call's tid/address): CWE560 warns <=> value >u 0o177 and value != 0o777, reported umask_arg = value; CWE467 warns <=> some declared parameter value == pointer size; no warning for any other site, no duplicates. non-trivial = call site of a checked symbol whose parameter computation has at least one operation or memory round trip beyond a constant assignment; distinct = hash of (call block, symbol, architecture)",
+        assumptions: &[
+            "irx/pref are a correct reading of the IR / P-Code semantics; the parameter value is read by irx at the call (Observer::before_jmp) and by executing the call block alone from two unrelated initial states (values must agree, else the case is inconclusive)",
+            "main workload (7/8): no intermediate constant operation (+ - * << negation) leaves the signed range of its width - the interval domain documents going to Top on signed overflow, the value is then not exactly known to the analysis; the remaining 1/8 of the programs allows such overflow: a missing warning there whose call block contains a signed-overflowing constant operation (checked by an independent concrete walk) is tagged with the proposed known-finding key c18-signed-overflow-in-constant-arithmetic",
+            "umask has exactly one declared parameter (the check logs and skips otherwise); parameters are at most 8 bytes wide",
+            "the call block computes the parameters from constants only: no value defined outside the block, no store through a non-stack address, no overlapping stores of different sizes, stack addresses are RSP/ESP (or a copy made in the block) plus a constant",
+            "verdicts on the release profile",
+        ],
+        run,
+        replay,
     }
+}
+
+// ---------------------------------------------------------------------------------------------
+// Architectures
+
+#[derive(Clone, Copy, PartialEq, Eq, Debug)]
+pub enum Arch {
+    X64,
+    X86,
+}
+
+impl Arch {
+    fn ptr(&self) -> u32 {
+        match self {
+            Arch::X64 => 8,
+            Arch::X86 => 4,
+        }
+    }
+    fn sp(&self) -> &'static str {
+        match self {
+            Arch::X64 => "RSP",
+            Arch::X86 => "ESP",
+        }
+    }
+    fn name(&self) -> &'static str {
+        match self {
+            Arch::X64 => "x64",
+            Arch::X86 => "x86",
+        }
+    }
+    fn scratch(&self) -> &'static [&'static str] {
+        match self {
+            Arch::X64 => &["RAX", "RBX", "R10", "R11", "R9"],
+            Arch::X86 => &["EAX", "EBX", "ECX", "EDX"],
+        }
+    }
+    fn noise(&self) -> &'static [&'static str] {
+        match self {
+            Arch::X64 => &["R12", "R13", "R14"],
+            Arch::X86 => &["ESI", "EDI"],
+        }
+    }
+}
+
+fn project_x86_32(prog: Program) -> Project {
+    let w = 4u64;
+    let gpr = ["EAX", "EBX", "ECX", "EDX", "ESI", "EDI", "EBP", "ESP"];
+    let mut register_set: BTreeSet<Variable> = gpr.iter().map(|n| var(n, w)).collect();
+    for f in FLAGS {
+        register_set.insert(var(f, 1));
+    }
+    let cconv = CallingConvention {
+        name: "__cdecl".to_string(),
+        integer_parameter_register: Vec::new(),
+        float_parameter_register: Vec::new(),
+        integer_return_register: vec![var("EAX", w)],
+        float_return_register: Vec::new(),
+        callee_saved_register: ["EBX", "ESI", "EDI", "EBP", "ESP"].iter().map(|n| var(n, w)).collect(),
+    };
+    use crate::conv::bs;
+    Project {
+        program: Term { tid: Tid::new("program"), term: prog },
+        cpu_architecture: "x86_32".to_string(),
+        stack_pointer_register: var("ESP", w),
+        calling_conventions: BTreeMap::from([("__cdecl".to_string(), cconv)]),
+        register_set,
+        datatype_properties: DatatypeProperties {
+            char_size: bs(1),
+            double_size: bs(8),
+            float_size: bs(4),
+            integer_size: bs(4),
+            long_double_size: bs(12),
+            long_long_size: bs(8),
+            long_size: bs(4),
+            pointer_size: bs(4),
+            short_size: bs(2),
+        },
+        runtime_memory_image: RuntimeMemoryImage::empty(true),
+    }
+}
+
+/// Declared parameter of a symbol (architecture independent description).
+#[derive(Clone, Debug)]
+enum ParamSpec {
+    /// x64 register, full width or 4-byte sub-register
+    Reg(&'static str, bool),
+    /// stack parameter at `sp + offset` at the time of the call, of `size` bytes
+    Stack(i64, u32),
+}
+
+struct SymSpec {
+    name: &'static str,
+    params: Vec<ParamSpec>,
+}
+
+fn symbols(arch: Arch, rng: &mut Rng) -> Vec<SymSpec> {
+    match arch {
+        Arch::X64 => {
+            let umask_sub = rng.bool();
+            vec![
+                SymSpec { name: "umask", params: vec![ParamSpec::Reg("RDI", umask_sub)] },
+                SymSpec { name: "malloc", params: vec![ParamSpec::Reg("RDI", false)] },
+                SymSpec { name: "memcpy", params: vec![ParamSpec::Reg("RDI", false), ParamSpec::Reg("RSI", false), ParamSpec::Reg("RDX", false)] },
+                SymSpec { name: "strncmp", params: vec![ParamSpec::Reg("RDI", false), ParamSpec::Reg("RSI", false), ParamSpec::Reg("RDX", rng.bool())] },
+                SymSpec { name: "wmemcpy", params: vec![ParamSpec::Reg("RDI", false), ParamSpec::Reg("RSI", true), ParamSpec::Stack(8, 8)] },
+                SymSpec { name: "consume", params: vec![ParamSpec::Reg("RDI", false), ParamSpec::Reg("RSI", false)] },
+            ]
+        }
+        Arch::X86 => vec![
+            SymSpec { name: "umask", params: vec![ParamSpec::Stack(4, 4)] },
+            SymSpec { name: "malloc", params: vec![ParamSpec::Stack(4, 4)] },
+            SymSpec { name: "memcpy", params: vec![ParamSpec::Stack(4, 4), ParamSpec::Stack(8, 4), ParamSpec::Stack(12, 4)] },
+            SymSpec { name: "strncpy", params: vec![ParamSpec::Stack(4, 4), ParamSpec::Stack(8, 4), ParamSpec::Stack(12, 4)] },
+            SymSpec { name: "consume", params: vec![ParamSpec::Stack(4, 4), ParamSpec::Stack(8, 4)] },
+        ],
+    }
+}
+
+fn extern_of(arch: Arch, spec: &SymSpec) -> ExternSymbol {
+    let w = arch.ptr();
+    let parameters = spec
+        .params
+        .iter()
+        .map(|p| match p {
+            ParamSpec::Reg(r, sub4) => Arg::Register { expr: if *sub4 { e_subpiece(0, 4, e_reg(r)) } else { e_reg(r) }, data_type: None },
+            ParamSpec::Stack(off, size) => Arg::Stack {
+                address: e_bin(BinOpType::IntAdd, Expression::Var(var(arch.sp(), w as u64)), e_const(*off, w)),
+                size: crate::conv::bs(*size),
+                data_type: None,
+            },
+        })
+        .collect();
+    let (cc, ret) = match arch {
+        Arch::X64 => ("__stdcall", var("RAX", 8)),
+        Arch::X86 => ("__cdecl", var("EAX", 4)),
+    };
+    ExternSymbol {
+        tid: tid(&format!("sym_{}", spec.name), &format!("ext_{}", spec.name)),
+        addresses: vec!["UNKNOWN".to_string()],
+        name: spec.name.to_string(),
+        calling_convention: Some(cc.to_string()),
+        parameters,
+        return_values: vec![Arg::Register { expr: Expression::Var(ret), data_type: None }],
+        no_return: false,
+        has_var_args: false,
+    }
+}
+
+// ---------------------------------------------------------------------------------------------
+// Generator
+
+const TARGETS: &[u64] = &[
+    0o177, 0o176, 0o200, 0o777, 0o776, 0o1000, 0o022, 0o077, 0o666, 0o755, 0o1777, 0, 1, 8, 7, 9, 4, 3, 5, 16, 0x100, 0x80, 0xff, 0x1ff, 0x1fe, 0x200,
+];
+
+struct Gen<'a> {
+    rng: &'a mut Rng,
+    arch: Arch,
+    n: u32,
+    /// generator-side execution of the block built so far (to steer values)
+    m: Machine,
+    st: XState,
+    /// stack pointer relative to its value at block start
+    sp: i64,
+    /// scratch registers holding constants computed in this block
+    known: Vec<&'static str>,
+    /// (offset relative to block-start sp, size) of slots written with constants in this block
+    written: Vec<(i64, u32)>,
+    slot_pool: Vec<(i64, u32)>,
+    /// copy of the stack pointer made in this block: (register, sp value at the time of the copy)
+    sp_copy: Option<(&'static str, i64)>,
+    /// number of operations beyond plain constant assignment used for the parameters of this block
+    ops: u32,
+    /// allow constant arithmetic that overflows the signed range (separate workload)
+    allow_overflow: bool,
+}
+
+impl<'a> Gen<'a> {
+    fn w(&self) -> u32 {
+        self.arch.ptr()
+    }
+    fn t(&mut self, p: &str) -> Tid {
+        self.n += 1;
+        tid(&format!("{p}{}", self.n), &format!("{:04x}", 0x2000 + self.n * 4))
+    }
+    fn r(&self, name: &str) -> Variable {
+        var(name, self.w() as u64)
+    }
+    fn er(&self, name: &str) -> Expression {
+        Expression::Var(self.r(name))
+    }
+    fn k(&self, v: i64) -> Expression {
+        e_const(v, self.w())
+    }
+    fn emit(&mut self, defs: &mut Vec<Term<Def>>, mut d: Term<Def>) {
+        let mut trace = Vec::new();
+        if !self.allow_overflow && format!("{}", d.tid).starts_with('c') && def_overflows(&self.m, &self.st, &d) {
+            // domain guard of the main workload: replace the overflowing operation by its (constant) result
+            if let Def::Assign { var, value } = &d.term {
+                if let Ok(v) = self.m.eval(&self.st, value) {
+                    d = assign(d.tid.clone(), var.clone(), Expression::Const(crate::conv::to_bv(v)));
+                }
+            }
+        }
+        let _ = self.m.exec_def(&mut self.st, &d, &mut trace);
+        defs.push(d);
+    }
+    fn cur(&self, name: &str) -> u64 {
+        self.m.read_var(&self.st, &self.r(name)).map(|v| v.v as u64).unwrap_or(0)
+    }
+    fn mask(&self) -> u64 {
+        if self.w() == 8 {
+            u64::MAX
+        } else {
+            0xffff_ffff
+        }
+    }
+
+    fn slot_addr(&mut self, off: i64) -> Expression {
+        if let Some((r, at)) = self.sp_copy {
+            if self.rng.bool() {
+                let k = off - at;
+                return if k == 0 { self.er(r) } else { e_bin(BinOpType::IntAdd, self.er(r), self.k(k)) };
+            }
+        }
+        let k = off - self.sp;
+        let sp = self.arch.sp();
+        if k == 0 {
+            self.er(sp)
+        } else if k < 0 && self.rng.bool() {
+            e_bin(BinOpType::IntSub, self.er(sp), self.k(-k))
+        } else {
+            e_bin(BinOpType::IntAdd, self.er(sp), self.k(k))
+        }
+    }
+
+    fn small_const(&mut self) -> i64 {
+        match self.rng.below(8) {
+            0..=2 => *self.rng.pick(TARGETS) as i64,
+            3 => self.rng.range_i64(0, 16),
+            4 => -self.rng.range_i64(1, 600),
+            5 => self.rng.range_i64(0, 0x400),
+            6 => *self.rng.pick(&[0xffff_ffffi64, 0x1_0000_0000, 0x7fff_ffff, -1, 0xfff, 0x1f8]),
+            _ => (self.rng.biased(4) as i64) & 0x7fff_ffff,
+        }
+    }
+
+    fn noise(&mut self, defs: &mut Vec<Term<Def>>) {
+        let pool = self.arch.noise();
+        let a = *self.rng.pick(pool);
+        let b = *self.rng.pick(pool);
+        let d = match self.rng.below(4) {
+            0 => {
+                let c = self.rng.range_i64(-8, 8);
+                assign(self.t("n"), self.r(a), e_bin(BinOpType::IntAdd, self.er(b), self.k(c)))
+            }
+            1 => assign(self.t("n"), var(*self.rng.pick(FLAGS), 1), e_bin(BinOpType::IntEqual, self.er(a), self.k(0))),
+            2 => assign(self.t("n"), self.r(a), e_bin(BinOpType::IntXOr, self.er(a), self.er(b))),
+            _ => {
+                // read of a slot of the noise area (never written)
+                let off = 0x100 + 8 * self.rng.range_i64(0, 3);
+                let address = self.slot_addr(off);
+                load(self.t("n"), self.r(a), address)
+            }
+        };
+        self.emit(defs, d);
+    }
+
+    /// One random operation on the working register `w` (a scratch register holding a constant).
+    fn step(&mut self, defs: &mut Vec<Term<Def>>, w: &'static str) {
+        use BinOpType::*;
+        let wbytes = self.w();
+        self.ops += 1;
+        match self.rng.below(16) {
+            0..=3 => {
+                let op = *self.rng.pick(&[IntAdd, IntSub, IntAnd, IntOr, IntXOr, IntAdd, IntSub]);
+                let c = self.small_const();
+                let d = assign(self.t("c"), self.r(w), e_bin(op, self.er(w), self.k(c)));
+                self.emit(defs, d);
+            }
+            4 | 5 if self.known.len() > 1 => {
+                let other = *self.rng.pick(&self.known);
+                let op = *self.rng.pick(&[IntAdd, IntSub, IntAnd, IntOr, IntXOr]);
+                let d = assign(self.t("c"), self.r(w), e_bin(op, self.er(w), self.er(other)));
+                self.emit(defs, d);
+            }
+            6 => {
+                let op = *self.rng.pick(&[IntLeft, IntRight, IntRight, IntSRight]);
+                let amount = *self.rng.pick(&[1i64, 1, 2, 3, 4, 8]);
+                let d = assign(self.t("c"), self.r(w), e_bin(op, self.er(w), e_const(amount, 1)));
+                self.emit(defs, d);
+            }
+            7 => {
+                let c = *self.rng.pick(&[2i64, 3, 4, 8]);
+                let d = assign(self.t("c"), self.r(w), e_bin(IntMult, self.er(w), self.k(c)));
+                self.emit(defs, d);
+            }
+            8 if wbytes == 8 => {
+                let cast = *self.rng.pick(&[CastOpType::IntZExt, CastOpType::IntSExt]);
+                let d = assign(self.t("c"), self.r(w), e_cast(cast, 8, e_subpiece(0, 4, self.er(w))));
+                self.emit(defs, d);
+            }
+            8 => {
+                let cast = *self.rng.pick(&[CastOpType::IntZExt, CastOpType::IntSExt]);
+                let d = assign(self.t("c"), self.r(w), e_cast(cast, 4, e_subpiece(0, 2, self.er(w))));
+                self.emit(defs, d);
+            }
+            9..=11 => {
+                // round trip through a stack slot
+                let slot = *self.rng.pick(&self.slot_pool);
+                let (off, size) = slot;
+                let value = if size == wbytes { self.er(w) } else { e_subpiece(0, size, self.er(w)) };
+                let a = self.slot_addr(off);
+                let d = store(self.t("c"), a, value);
+                self.emit(defs, d);
+                if !self.written.contains(&slot) {
+                    self.written.push(slot);
+                }
+                if self.rng.chance(1, 3) {
+                    self.noise(defs);
+                }
+                self.load_back(defs, w, slot);
+            }
+            12 if !self.written.is_empty() => {
+                let slot = *self.rng.pick(&self.written);
+                self.load_back(defs, w, slot);
+            }
+            13 | 14 => {
+                // push w ... pop w'
+                let sp = self.arch.sp();
+                let wb = wbytes as i64;
+                let d = assign(self.t("c"), self.r(sp), e_bin(IntSub, self.er(sp), self.k(wb)));
+                self.emit(defs, d);
+                self.sp -= wb;
+                let d = store(self.t("c"), self.er(sp), self.er(w));
+                self.emit(defs, d);
+                if self.rng.chance(1, 3) {
+                    self.noise(defs);
+                }
+                let d = load(self.t("c"), self.r(w), self.er(sp));
+                self.emit(defs, d);
+                let d = if self.rng.chance(1, 4) {
+                    assign(self.t("c"), self.r(sp), e_bin(IntSub, self.er(sp), self.k(-wb)))
+                } else {
+                    assign(self.t("c"), self.r(sp), e_bin(IntAdd, self.er(sp), self.k(wb)))
+                };
+                self.emit(defs, d);
+                self.sp += wb;
+            }
+            _ => {
+                // copy through another scratch register
+                let pool = self.arch.scratch();
+                let other = *self.rng.pick(pool);
+                if other != w {
+                    let d = assign(self.t("c"), self.r(other), self.er(w));
+                    self.emit(defs, d);
+                    if !self.known.contains(&other) {
+                        self.known.push(other);
+                    }
+                    let d = assign(self.t("c"), self.r(w), self.er(other));
+                    self.emit(defs, d);
+                }
+            }
+        }
+    }
+
+    fn load_back(&mut self, defs: &mut Vec<Term<Def>>, w: &'static str, slot: (i64, u32)) {
+        let (off, size) = slot;
+        let a = self.slot_addr(off);
+        if size == self.w() {
+            let d = load(self.t("c"), self.r(w), a);
+            self.emit(defs, d);
+        } else {
+            let tv = tmp(&format!("$U{}", self.n), size as u64);
+            let d = load(self.t("c"), tv.clone(), a);
+            self.emit(defs, d);
+            let cast = *self.rng.pick(&[CastOpType::IntZExt, CastOpType::IntSExt]);
+            let d = assign(self.t("c"), self.r(w), e_cast(cast, self.w(), e_var(&tv)));
+            self.emit(defs, d);
+        }
+    }
+
+    /// Make the low `bytes` bytes of `w` equal to `target` with one more constant operation.
+    fn steer(&mut self, defs: &mut Vec<Term<Def>>, w: &'static str, target: u64, bytes: u32) {
+        use BinOpType::*;
+        let full = self.mask();
+        let low = if bytes >= 8 { u64::MAX } else { (1u64 << (8 * bytes)) - 1 };
+        let v = self.cur(w);
+        // garbage in the bytes above the parameter (sub-register parameters)
+        let high = if bytes < self.w() && self.rng.bool() { (self.rng.next_u64() & full) & !low } else { 0 };
+        let goal = (target & low) | high;
+        if v == goal && self.rng.bool() {
+            return;
+        }
+        self.ops += 1;
+        let d = match self.rng.below(6) {
+            0 | 1 => assign(self.t("c"), self.r(w), e_bin(IntAdd, self.er(w), self.k(goal.wrapping_sub(v) as i64))),
+            2 => assign(self.t("c"), self.r(w), e_bin(IntSub, self.er(w), self.k(v.wrapping_sub(goal) as i64))),
+            3 => assign(self.t("c"), self.r(w), e_bin(IntXOr, self.er(w), self.k((v ^ goal) as i64))),
+            4 if v & goal == goal => assign(self.t("c"), self.r(w), e_bin(IntAnd, self.er(w), self.k(goal as i64))),
+            4 if v | goal == goal => assign(self.t("c"), self.r(w), e_bin(IntOr, self.er(w), self.k(goal as i64))),
+            _ => {
+                let sh = self.rng.range_i64(1, 6);
+                if goal.leading_zeros() as i64 > sh + 1 + (64 - 8 * self.w() as i64) {
+                    let garbage = self.rng.below(1 << sh);
+                    let d0 = assign(self.t("c"), self.r(w), self.k(((goal << sh) | garbage) as i64));
+                    self.emit(defs, d0);
+                    assign(self.t("c"), self.r(w), e_bin(IntRight, self.er(w), e_const(sh, 1)))
+                } else {
+                    self.ops -= 1;
+                    assign(self.t("c"), self.r(w), self.k(goal as i64))
+                }
+            }
+        };
+        self.emit(defs, d);
+    }
+
+    /// Compute one parameter value into a scratch register and return that register.
+    fn chain(&mut self, defs: &mut Vec<Term<Def>>, target: u64, bytes: u32, exclude: &[&'static str]) -> &'static str {
+        let pool: Vec<&'static str> = self.arch.scratch().iter().copied().filter(|r| !exclude.contains(r)).collect();
+        let w = *self.rng.pick(&pool);
+        let c0 = if self.rng.chance(1, 3) { target as i64 } else { self.small_const() };
+        let d = assign(self.t("c"), self.r(w), self.k(c0));
+        self.emit(defs, d);
+        if !self.known.contains(&w) {
+            self.known.push(w);
+        }
+        let nsteps = self.rng.below(5);
+        for _ in 0..nsteps {
+            if self.rng.chance(1, 4) {
+                self.noise(defs);
+            }
+            self.step(defs, w);
+        }
+        self.steer(defs, w, target, bytes);
+        w
+    }
+
+    fn pick_target(&mut self, want_ptr: Option<bool>) -> u64 {
+        let ptr = self.w() as u64;
+        match want_ptr {
+            Some(true) => ptr,
+            Some(false) => loop {
+                let t = *self.rng.pick(TARGETS);
+                if t != ptr {
+                    return t;
+                }
+            },
+            None => match self.rng.below(10) {
+                0..=6 => *self.rng.pick(TARGETS),
+                7 => self.rng.below(0o2000),
+                8 => *self.rng.pick(&[0xffff_ffffu64, 0x8000_0000, 0xffff_fe00, 0xffff_ff80, 0x1_0000_0008, 0x1_0000_01ff]) & self.mask(),
+                _ => self.rng.biased(self.w()) as u64,
+            },
+        }
+    }
+
+    /// Build the defs of a call block for `spec`. Returns (defs, number of chain operations).
+    fn call_block(&mut self, spec: &SymSpec) -> (Vec<Term<Def>>, u32) {
+        let mut defs = Vec::new();
+        let wb = self.w() as i64;
+        self.m = Machine::new(self.rng.next_u64());
+        self.st = XState::default();
+        self.sp = 0;
+        self.known.clear();
+        self.written.clear();
+        self.sp_copy = None;
+        self.ops = 0;
+        let sp = self.arch.sp();
+        // local frame
+        let nstack = spec.params.iter().filter(|p| matches!(p, ParamSpec::Stack(..))).count() as i64;
+        let push_style = self.arch == Arch::X86 && self.rng.bool();
+        let frame = *self.rng.pick(&[0i64, 0, 16, 32, 64]) + if push_style { 0 } else { ((nstack * wb + 15) / 16) * 16 };
+        if frame > 0 {
+            let d = assign(self.t("c"), self.r(sp), e_bin(BinOpType::IntSub, self.er(sp), self.k(frame)));
+            self.emit(&mut defs, d);
+            self.sp -= frame;
+        }
+        // slots for round trips: above the outgoing argument area, one size per slot
+        let base = self.sp + 32;
+        self.slot_pool = (0..4).map(|i| (base + 8 * i, if self.arch == Arch::X86 || self.rng.chance(1, 3) { 4 } else { 8 })).collect();
+        if self.rng.chance(1, 3) {
+            let r: &'static str = if self.arch == Arch::X64 { "RBP" } else { "EBP" };
+            let d = assign(self.t("c"), self.r(r), self.er(sp));
+            self.emit(&mut defs, d);
+            self.sp_copy = Some((r, self.sp));
+        }
+        // which parameter (if any) gets the pointer size
+        let is_umask = spec.name == "umask";
+        let ptr_param = if !is_umask && self.rng.chance(2, 5) { Some(self.rng.usize_below(spec.params.len())) } else { None };
+        let mut order: Vec<usize> = (0..spec.params.len()).collect();
+        if push_style {
+            order.reverse();
+        } else {
+            self.rng.shuffle(&mut order);
+        }
+        let mut used_param_regs: Vec<&'static str> = Vec::new();
+        let arg_base = self.sp; // address of the first stack argument before the return address is pushed (mov style)
+        for idx in order {
+            let p = spec.params[idx].clone();
+            let bytes = match &p {
+                ParamSpec::Reg(_, sub4) => {
+                    if *sub4 {
+                        4
+                    } else {
+                        8
+                    }
+                }
+                ParamSpec::Stack(_, size) => *size,
+            };
+            let target = if is_umask {
+                self.pick_target(None)
+            } else if ptr_param == Some(idx) {
+                self.pick_target(Some(true))
+            } else if ptr_param.is_some() || self.rng.chance(2, 3) {
+                self.pick_target(Some(false))
+            } else {
+                // free choice (may hit the pointer size by itself)
+                self.pick_target(None)
+            };
+            let w = self.chain(&mut defs, target, bytes, &used_param_regs);
+            if self.rng.chance(1, 4) {
+                self.noise(&mut defs);
+            }
+            match p {
+                ParamSpec::Reg(r, _) => {
+                    let d = assign(self.t("c"), self.r(r), self.er(w));
+                    self.emit(&mut defs, d);
+                    used_param_regs.push(r);
+                }
+                ParamSpec::Stack(off, size) => {
+                    let value = if size == self.w() { self.er(w) } else { e_subpiece(0, size, self.er(w)) };
+                    if push_style {
+                        let d = assign(self.t("c"), self.r(sp), e_bin(BinOpType::IntSub, self.er(sp), self.k(wb)));
+                        self.emit(&mut defs, d);
+                        self.sp -= wb;
+                        let d = store(self.t("c"), self.er(sp), value);
+                        self.emit(&mut defs, d);
+                    } else {
+                        // the parameter lives at [sp_at_call + off] where sp_at_call = arg_base - wb
+                        let a = self.slot_addr(arg_base - wb + off);
+                        let d = store(self.t("c"), a, value);
+                        self.emit(&mut defs, d);
+                    }
+                }
+            }
+        }
+        // return address
+        let d = assign(self.t("c"), self.r(sp), e_bin(BinOpType::IntSub, self.er(sp), self.k(wb)));
+        self.emit(&mut defs, d);
+        self.sp -= wb;
+        let ret = 0x40_1000 + 16 * self.n as i64;
+        let d = store(self.t("c"), self.er(sp), self.k(ret));
+        self.emit(&mut defs, d);
+        let ops = self.ops;
+        (defs, ops)
+    }
+}
+
+#[derive(Clone, Debug)]
+pub struct Site {
+    pub blk: Tid,
+    pub jmp: Tid,
+    pub symbol: String,
+    pub ops: u32,
+}
+
+pub struct Prog {
+    pub project: Project,
+    pub arch: Arch,
+    pub sites: Vec<Site>,
+    pub optimized: bool,
+}
+
+pub fn gen_program(rng: &mut Rng, arch: Arch, optimize: bool, allow_overflow: bool) -> Prog {
+    let specs = symbols(arch, rng);
+    let externs: Vec<ExternSymbol> = specs.iter().map(|s| extern_of(arch, s)).collect();
+    let ncalls = rng.range_usize(1, 3);
+    let npre = rng.below(3) as usize;
+    let mut g = Gen {
+        rng,
+        arch,
+        n: 0,
+        m: Machine::new(0),
+        st: XState::default(),
+        sp: 0,
+        known: vec![],
+        written: vec![],
+        slot_pool: vec![],
+        sp_copy: None,
+        ops: 0,
+        allow_overflow,
+    };
+    let total = npre + ncalls + 1;
+    let blk_tids: Vec<Tid> = (0..total).map(|i| tid(&format!("blk{i}"), &format!("b{i:02}0"))).collect();
+    let mut blocks = Vec::new();
+    let mut sites = Vec::new();
+    for i in 0..npre {
+        let mut defs = Vec::new();
+        for _ in 0..g.rng.below(4) {
+            g.noise(&mut defs);
+        }
+        if g.rng.bool() {
+            // constants set up outside the call block (must not matter)
+            let r = *g.rng.pick(arch.scratch());
+            let c = g.small_const();
+            defs.push(assign(g.t("p"), g.r(r), g.k(c)));
+        }
+        let mut jmps = Vec::new();
+        if g.rng.bool() {
+            let cond = e_bin(BinOpType::IntEqual, g.er(arch.noise()[0]), g.k(0));
+            let target = blk_tids[g.rng.range_usize(i + 1, total - 1)].clone();
+            jmps.push(jmp(g.t("j"), Jmp::CBranch { target, condition: cond }));
+        }
+        jmps.push(jmp(g.t("j"), Jmp::Branch(blk_tids[i + 1].clone())));
+        blocks.push(blk(blk_tids[i].clone(), defs, jmps));
+    }
+    for c in 0..ncalls {
+        let i = npre + c;
+        // umask and configured symbols dominate; the unconfigured symbol appears now and then
+        let spec = match g.rng.below(10) {
+            0..=3 => &specs[0],
+            9 => specs.last().unwrap(),
+            _ => &specs[1 + g.rng.usize_below(specs.len() - 2)],
+        };
+        let (defs, ops) = g.call_block(spec);
+        let jt = g.t("call");
+        let target = tid(&format!("sym_{}", spec.name), &format!("ext_{}", spec.name));
+        sites.push(Site { blk: blk_tids[i].clone(), jmp: jt.clone(), symbol: spec.name.to_string(), ops });
+        blocks.push(blk(blk_tids[i].clone(), defs, vec![jmp(jt, Jmp::Call { target, return_: Some(blk_tids[i + 1].clone()) })]));
+    }
+    {
+        let w = arch.ptr();
+        let rv = tmp("$Uret", w as u64);
+        let sp = arch.sp();
+        let defs = vec![
+            load(g.t("r"), rv.clone(), g.er(sp)),
+            assign(g.t("r"), g.r(sp), e_bin(BinOpType::IntAdd, g.er(sp), g.k(w as i64))),
+        ];
+        blocks.push(blk(blk_tids[total - 1].clone(), defs, vec![jmp(g.t("j"), Jmp::Return(e_var(&rv)))]));
+    }
+    let f = sub(tid("sub_main", "m000"), "main", blocks);
+    let entry = f.tid.clone();
+    let prog = program(vec![f], externs, Some(entry));
+    let mut project = match arch {
+        Arch::X64 => project_x64(prog),
+        Arch::X86 => project_x86_32(prog),
+    };
+    let _ = project.normalize_basic();
+    if optimize {
+        let _ = project.normalize_optimize();
+    }
+    Prog { project, arch, sites, optimized: optimize }
+}
+
+// ---------------------------------------------------------------------------------------------
+// Reference values
+
+fn param_value(m: &Machine, st: &XState, arg: &Arg) -> Result<u64, String> {
+    let v = match arg {
+        Arg::Register { expr, .. } => m.eval(st, expr).map_err(|_| "parameter expression undefined".to_string())?,
+        Arg::Stack { address, size, .. } => {
+            let a = m.eval(st, address).map_err(|_| "parameter address undefined".to_string())?;
+            let size = u64::from(*size) as u32;
+            V::new(m.load_mem(st, a.v as u64, size), size)
+        }
+    };
+    if v.w > 8 {
+        return Err("parameter wider than 8 bytes".into());
+    }
+    Ok(v.v as u64)
+}
+
+fn machine_for(project: &Project, seed: u64) -> Machine {
+    let mut m = Machine::new(seed);
+    let cconv = project.get_standard_calling_convention().unwrap();
+    m.havoc_regs = project.register_set.iter().filter(|r| !cconv.callee_saved_register.contains(r)).cloned().collect();
+    m.max_blocks = 40;
+    m
+}
+
+fn random_state(rng: &mut Rng, project: &Project) -> XState {
+    let mut st = XState::default();
+    for r in project.register_set.iter() {
+        let w = u64::from(r.size) as u32;
+        let v = if w == 1 {
+            rng.below(2) as u128
+        } else if *r == project.stack_pointer_register {
+            (0x7000_0000u64 + (rng.below(0x1000) << 8)) as u128
+        } else {
+            rng.biased(w)
+        };
+        st.vars.insert(r.clone(), V::new(v, w));
+    }
+    st
+}
+
+struct CallObs<'a> {
+    m: &'a Machine,
+    externs: &'a BTreeMap<Tid, ExternSymbol>,
+    seen: BTreeMap<Tid, Result<Vec<u64>, String>>,
+}
+
+impl<'a> Observer for CallObs<'a> {
+    fn before_jmp(&mut self, _blk: &Term<Blk>, j: &Term<Jmp>, st: &XState) {
+        if let Jmp::Call { target, .. } = &j.term {
+            if let Some(sym) = self.externs.get(target) {
+                let vals: Result<Vec<u64>, String> = sym.parameters.iter().map(|a| param_value(self.m, st, a)).collect();
+                self.seen.insert(j.tid.clone(), vals);
+            }
+        }
+    }
+}
+
+/// Parameter values at every call site: block executed alone from two unrelated states, plus whole-function runs.
+fn reference_values(project: &Project, seed: u64) -> BTreeMap<Tid, Result<Vec<u64>, String>> {
+    let mut out: BTreeMap<Tid, Result<Vec<u64>, String>> = BTreeMap::new();
+    let externs = &project.program.term.extern_symbols;
+    for sub in project.program.term.subs.values() {
+        for b in &sub.term.blocks {
+            for j in &b.term.jmps {
+                let Jmp::Call { target, .. } = &j.term else { continue };
+                let Some(sym) = externs.get(target) else { continue };
+                let mut results: Vec<Result<Vec<u64>, String>> = Vec::new();
+                for k in 0..2u64 {
+                    let mut rng = Rng::derive(seed, "c18-blockstate", k);
+                    let m = machine_for(project, rng.next_u64());
+                    let mut st = random_state(&mut rng, project);
+                    let mut trace = Vec::new();
+                    match m.run_block_defs(b, &mut st, &mut trace) {
+                        Ok(()) => results.push(sym.parameters.iter().map(|a| param_value(&m, &st, a)).collect()),
+                        Err(e) => results.push(Err(format!("block stopped early: {e:?}"))),
+                    }
+                }
+                let r = match (&results[0], &results[1]) {
+                    (Ok(a), Ok(b2)) if a == b2 => Ok(a.clone()),
+                    (Ok(a), Ok(b2)) => Err(format!("parameter depends on the initial state ({a:?} vs {b2:?})")),
+                    (Err(e), _) | (_, Err(e)) => Err(e.clone()),
+                };
+                out.insert(j.tid.clone(), r);
+            }
+        }
+        // whole-function runs (the call block preceded by other blocks): values observed at the call must agree
+        if sub.tid.is_artificial_sink_sub() {
+            continue;
+        }
+        for k in 0..3u64 {
+            let mut rng = Rng::derive(seed, "c18-runstate", k);
+            let m = machine_for(project, rng.next_u64());
+            let mut st = random_state(&mut rng, project);
+            let mut obs = CallObs { m: &m, externs, seen: BTreeMap::new() };
+            let trace = m.run_sub(sub, &mut st, &mut obs);
+            let undefined = matches!(trace.last(), Some(Ev::Undefined { .. }));
+            for (t, v) in obs.seen {
+                if let (Some(Ok(a)), Ok(b2)) = (out.get(&t), &v) {
+                    if a != b2 {
+                        out.insert(t, Err(format!("value at the call in a whole-function run ({b2:?}) differs from the block-alone value ({a:?})")));
+                    }
+                }
+            }
+            if undefined {
+                break;
+            }
+        }
+    }
+    out
+}
+
+
+/// Key of the proposed known finding: constant arithmetic that overflows the signed range makes the
+/// interval domain give up (Top) although the wrapped result is a constant.
+pub const KNOWN_OVERFLOW: &str = "c18-signed-overflow-in-constant-arithmetic";
+
+/// Does the evaluation of `e` in `st` contain an addition, subtraction, multiplication, left shift or
+/// negation whose mathematically exact result leaves the signed range of its width?
+fn expr_overflows(m: &Machine, st: &XState, e: &Expression) -> bool {
+    match e {
+        Expression::BinOp { op, lhs, rhs } => {
+            if expr_overflows(m, st, lhs) || expr_overflows(m, st, rhs) {
+                return true;
+            }
+            let (Ok(a), Ok(b)) = (m.eval(st, lhs), m.eval(st, rhs)) else { return false };
+            let (min, max) = (V::new(1u128 << (a.bits() - 1), a.w).s(), -(V::new(1u128 << (a.bits() - 1), a.w).s() + 1));
+            let exact = match op {
+                BinOpType::IntAdd => a.s().checked_add(b.s()),
+                BinOpType::IntSub => a.s().checked_sub(b.s()),
+                BinOpType::IntMult if a.w <= 8 => a.s().checked_mul(b.s()),
+                BinOpType::IntLeft if a.w <= 8 && b.v < a.bits() as u128 => a.s().checked_mul(V::new(1u128 << b.v, a.w).s()),
+                _ => return false,
+            };
+            !matches!(exact, Some(x) if x >= min && x <= max)
+        }
+        Expression::UnOp { op, arg } => {
+            if expr_overflows(m, st, arg) {
+                return true;
+            }
+            match (op, m.eval(st, arg)) {
+                (UnOpType::Int2Comp, Ok(a)) => a.v == 1u128 << (a.bits() - 1),
+                _ => false,
+            }
+        }
+        Expression::Cast { arg, .. } | Expression::Subpiece { arg, .. } => expr_overflows(m, st, arg),
+        _ => false,
+    }
+}
+
+fn def_overflows(m: &Machine, st: &XState, d: &Term<Def>) -> bool {
+    match &d.term {
+        Def::Assign { value, .. } => expr_overflows(m, st, value),
+        Def::Load { address, .. } => expr_overflows(m, st, address),
+        Def::Store { address, value } => expr_overflows(m, st, address) || expr_overflows(m, st, value),
+    }
+}
+
+/// Executes the block alone and reports whether any of its defs contains signed-overflowing arithmetic.
+fn block_overflows(project: &Project, b: &Term<Blk>, seed: u64) -> bool {
+    let mut rng = Rng::derive(seed, "c18-overflow", 0);
+    let m = machine_for(project, rng.next_u64());
+    let mut st = random_state(&mut rng, project);
+    let mut trace = Vec::new();
+    for d in &b.term.defs {
+        // only arithmetic on values that do not depend on the initial state matters; noise registers are excluded
+        // by looking at constant-only sub-expressions: an expression reading a register that was never written in
+        // this block is skipped
+        if def_overflows(&m, &st, d) && def_is_constant_only(b, d) {
+            return true;
+        }
+        if m.exec_def(&mut st, d, &mut trace).is_err() {
+            return false;
+        }
+    }
+    false
+}
+
+/// All registers read by `d` were written earlier in the same block (the value is a block-local constant).
+fn def_is_constant_only(b: &Term<Blk>, d: &Term<Def>) -> bool {
+    let mut written: BTreeSet<Variable> = BTreeSet::new();
+    for x in &b.term.defs {
+        if x.tid == d.tid {
+            break;
+        }
+        match &x.term {
+            Def::Assign { var, .. } | Def::Load { var, .. } => {
+                written.insert(var.clone());
+            }
+            Def::Store { .. } => (),
+        }
+    }
+    let inputs: Vec<&Variable> = match &d.term {
+        Def::Assign { value, .. } => value.input_vars(),
+        Def::Load { address, .. } => address.input_vars(),
+        Def::Store { address, value } => {
+            let mut v = address.input_vars();
+            v.extend(value.input_vars());
+            v
+        }
+    };
+    const NOISE: &[&str] = &["R12", "R13", "R14", "ESI", "EDI"];
+    inputs.iter().all(|v| !NOISE.contains(&v.name.as_str()) && (written.contains(*v) || v.name.ends_with("SP")))
+}
+
+// ---------------------------------------------------------------------------------------------
+// Running the checkers
+
+fn config() -> &'static Value {
+    static CFG: OnceLock<Value> = OnceLock::new();
+    CFG.get_or_init(|| {
+        let path = std::env::var("CWE_CHECKER_CONFIG").unwrap_or_else(|_| "/repo/src/config.json".to_string());
+        std::fs::read_to_string(&path).ok().and_then(|t| serde_json::from_str::<Value>(&t).ok()).unwrap_or(Value::Null)
+    })
+}
+
+pub struct Verdicts {
+    pub cwe560: Vec<CweWarning>,
+    pub cwe467: Vec<CweWarning>,
+}
+
+pub fn run_checkers(project: &Project) -> Verdicts {
+    let cfg = config();
+    let (cfg_graph, _logs) = graph::get_program_cfg_with_logs(&project.program);
+    let binary: Vec<u8> = Vec::new();
+    let ar = AnalysisResults::new(&binary, &cfg_graph, project);
+    let (sigs, _) = ar.compute_function_signatures();
+    let ar = ar.with_function_signatures(Some(&sigs));
+    let pi = ar.compute_pointer_inference(&cfg["Memory"], false);
+    let ar = ar.with_pointer_inference(Some(&pi));
+    let (_l1, cwe560) = (cwe_checker_lib::checkers::cwe_560::CWE_MODULE.run)(&ar, &cfg["CWE560"]);
+    let (_l2, cwe467) = (cwe_checker_lib::checkers::cwe_467::CWE_MODULE.run)(&ar, &cfg["CWE467"]);
+    Verdicts { cwe560, cwe467 }
+}
+
+fn block_text(project: &Project, blk_tid: &Tid) -> String {
+    for s in project.program.term.subs.values() {
+        for b in &s.term.blocks {
+            if b.tid == *blk_tid {
+                let mut out = String::new();
+                for d in &b.term.defs {
+                    out += &format!("    [{}] {}\n", d.tid, d.term);
+                }
+                for j in &b.term.jmps {
+                    out += &format!("    [{}] {}\n", j.tid, j.term);
+                }
+                return out;
+            }
+        }
+    }
+    String::new()
+}
+
+pub fn check_program(project: &Project, arch_name: &str, seed: u64, site_ops: &BTreeMap<String, u32>, rep: &mut Report) {
+    let case = || json!({"project": project_to_json(project), "arch": arch_name, "seed": seed, "site_ops": site_ops});
+    let cfg = config();
+    if !cfg["CWE467"]["symbols"].is_array() {
+        rep.inconclusive("config.json-not-readable");
+        return;
+    }
+    let configured: BTreeSet<String> = cfg["CWE467"]["symbols"].as_array().unwrap().iter().filter_map(|s| s.as_str().map(|x| x.to_string())).collect();
+    let ptr = u64::from(project.stack_pointer_register.size);
+    let size: u64 = project.program.term.subs.values().map(|s| s.term.blocks.iter().map(|b| 2 + b.term.defs.len() as u64).sum::<u64>()).sum();
+    let verdicts = match guard(|| run_checkers(project)) {
+        Ok(v) => v,
+        Err(p) => {
+            rep.eval();
+            rep.violation(format!("pipeline:panic:{}", panic_site(&p)), None, format!("pipeline or checker panicked: {p}\n{}", show_program(&project.program.term)), case(), size);
+            return;
+        }
+    };
+    let values = reference_values(project, seed);
+    // index warnings by call tid
+    let mut w560: BTreeMap<String, Vec<&CweWarning>> = BTreeMap::new();
+    for w in &verdicts.cwe560 {
+        w560.entry(w.tids.first().cloned().unwrap_or_default()).or_default().push(w);
+    }
+    let mut w467: BTreeMap<String, Vec<&CweWarning>> = BTreeMap::new();
+    for w in &verdicts.cwe467 {
+        w467.entry(w.tids.first().cloned().unwrap_or_default()).or_default().push(w);
+    }
+    let mut site_tids: BTreeSet<String> = BTreeSet::new();
+    let externs = &project.program.term.extern_symbols;
+    for sub in project.program.term.subs.values() {
+        for b in &sub.term.blocks {
+            for j in &b.term.jmps {
+                let Jmp::Call { target, .. } = &j.term else { continue };
+                let Some(sym) = externs.get(target) else { continue };
+                let key = format!("{}", j.tid);
+                site_tids.insert(key.clone());
+                let got560 = w560.get(&key).map(|v| v.len()).unwrap_or(0);
+                let got467 = w467.get(&key).map(|v| v.len()).unwrap_or(0);
+                let vals = match values.get(&j.tid) {
+                    Some(Ok(v)) => v.clone(),
+                    Some(Err(e)) => {
+                        rep.inconclusive(&format!("reference-value-unavailable:{}", e.split('(').next().unwrap_or("").trim()));
+                        continue;
+                    }
+                    None => continue,
+                };
+                let ops = site_ops.get(&key).copied().unwrap_or(0);
+                let overflowing = block_overflows(project, b, seed);
+                if overflowing {
+                    rep.obs("call-block:signed-overflow-in-constant-arithmetic");
+                }
+                let describe = |what: &str| -> String {
+                    format!(
+                        "{what}\n  call site {} ({}) to {} in a {arch_name} project (pointer size {ptr}), parameter values computed by the block: {:?}\n  call block:\n{}",
+                        j.tid,
+                        j.tid.address,
+                        sym.name,
+                        vals.iter().map(|v| format!("{v:#o}")).collect::<Vec<_>>(),
+                        block_text(project, &b.tid)
+                    )
+                };
+                // ---- CWE560
+                rep.eval();
+                if sym.name == "umask" {
+                    let v = vals[0];
+                    let expect = v > 0o177 && v != 0o777;
+                    rep.obs(&format!("umask:{}", if expect { "chmod-style" } else { "ok-value" }));
+                    if v == 0o177 || v == 0o200 || v == 0o777 || v == 0o776 || v == 0o1000 {
+                        rep.obs(&format!("umask:boundary:{v:#o}"));
+                    }
+                    match (expect, got560) {
+                        (true, 0) => rep.violation(format!("cwe560:{arch_name}:missing-warning{}", if overflowing { ":signed-overflow-in-constant-arithmetic" } else { "" }), if overflowing { Some(KNOWN_OVERFLOW) } else { None }, describe(&format!("CWE560 does not warn although the umask argument is {v:#o} (> 0o177 and != 0o777)")), case(), size),
+                        (false, n) if n > 0 => rep.violation(format!("cwe560:{arch_name}:spurious-warning"), None, describe(&format!("CWE560 warns ({}) although the umask argument is {v:#o}", w560[&key][0].description)), case(), size),
+                        (true, n) if n > 1 => rep.violation(format!("cwe560:{arch_name}:duplicate-warning"), None, describe(&format!("CWE560 warns {n} times for one call site")), case(), size),
+                        (true, _) => {
+                            let w = w560[&key][0];
+                            let reported = w.other.iter().find(|kv| kv.first().map(|s| s.as_str()) == Some("umask_arg")).and_then(|kv| kv.get(1)).cloned();
+                            if reported.as_deref() != Some(&format!("{v:#o}")) {
+                                rep.violation(format!("cwe560:{arch_name}:reported-value"), None, describe(&format!("CWE560 reports umask_arg {reported:?} but the argument is {v:#o}")), case(), size);
+                            }
+                            if w.addresses.first() != Some(&j.tid.address) {
+                                rep.violation(format!("cwe560:{arch_name}:address"), None, describe(&format!("CWE560 warning carries addresses {:?}, the call is at {}", w.addresses, j.tid.address)), case(), size);
+                            }
+                        }
+                        _ => (),
+                    }
+                    if ops > 0 {
+                        rep.nontrivial(crate::prng::mix(fp_of(&b.term), crate::prng::hash_str(&format!("umask{arch_name}"))));
+                    }
+                } else if got560 > 0 {
+                    rep.violation(format!("cwe560:{arch_name}:warning-at-other-symbol"), None, describe("CWE560 warns at a call that is not a umask call"), case(), size);
+                }
+                // ---- CWE467
+                rep.eval();
+                if configured.contains(&sym.name) {
+                    let expect = vals.iter().any(|v| *v == ptr);
+                    rep.obs(&format!("cwe467:{}:{}", sym.name, if expect { "pointer-sized-arg" } else { "no-pointer-sized-arg" }));
+                    match (expect, got467) {
+                        (true, 0) => rep.violation(format!("cwe467:{arch_name}:missing-warning{}", if overflowing { ":signed-overflow-in-constant-arithmetic" } else { "" }), if overflowing { Some(KNOWN_OVERFLOW) } else { None }, describe(&format!("CWE467 does not warn although a parameter equals the pointer size {ptr}")), case(), size),
+                        (false, n) if n > 0 => rep.violation(format!("cwe467:{arch_name}:spurious-warning"), None, describe(&format!("CWE467 warns although no parameter equals the pointer size {ptr}")), case(), size),
+                        (true, n) if n > 1 => rep.violation(format!("cwe467:{arch_name}:duplicate-warning"), None, describe(&format!("CWE467 warns {n} times for one call site")), case(), size),
+                        (true, _) => {
+                            let w = w467[&key][0];
+                            if w.addresses.first() != Some(&j.tid.address) {
+                                rep.violation(format!("cwe467:{arch_name}:address"), None, describe(&format!("CWE467 warning carries addresses {:?}, the call is at {}", w.addresses, j.tid.address)), case(), size);
+                            }
+                        }
+                        _ => (),
+                    }
+                    if ops > 0 {
+                        rep.nontrivial(crate::prng::mix(fp_of(&b.term), crate::prng::hash_str(&format!("{}{arch_name}", sym.name))));
+                    }
+                } else if got467 > 0 {
+                    rep.violation(format!("cwe467:{arch_name}:warning-at-other-symbol"), None, describe("CWE467 warns at a call to a symbol that is not configured"), case(), size);
+                } else if vals.iter().any(|v| *v == ptr) {
+                    rep.obs("cwe467:unconfigured-symbol-with-pointer-sized-arg(no warning expected)");
+                }
+            }
+        }
+    }
+    // warnings that do not belong to any call site
+    for (k, _) in w560.iter().filter(|(k, _)| !site_tids.contains(*k)) {
+        rep.violation(format!("cwe560:{arch_name}:warning-without-call-site"), None, format!("CWE560 warning with tids [{k}] does not name a call site of the program"), case(), size);
+    }
+    for (k, _) in w467.iter().filter(|(k, _)| !site_tids.contains(*k)) {
+        rep.violation(format!("cwe467:{arch_name}:warning-without-call-site"), None, format!("CWE467 warning with tids [{k}] does not name a call site of the program"), case(), size);
+    }
+}
+
+fn run(cfg: &Cfg) -> Report {
+    let shards = cfg.tier.pick(256usize, 1024usize);
+    let per_shard = cfg.tier.pick(48usize, 300usize);
+    par_shards(cfg, "c18", shards, |idx, rng, rep| {
+        for i in 0..per_shard {
+            let arch = if (idx + i) % 3 == 0 { Arch::X86 } else { Arch::X64 };
+            let optimize = (idx / 2 + i) % 2 == 0;
+            let overflow = idx % 8 == 7;
+            let prog = match guard(|| gen_program(rng, arch, optimize, overflow)) {
+                Ok(p) => p,
+                Err(msg) => {
+                    rep.inconclusive(&format!("generator-or-normalisation-panic:{}", panic_site(&msg)));
+                    continue;
+                }
+            };
+            let seed = rng.next_u64();
+            rep.obs(&format!("arch:{}", arch.name()));
+            rep.obs(if optimize { "pipeline:basic+optimize" } else { "pipeline:basic" });
+            rep.obs(if overflow { "workload:overflowing-constant-arithmetic-allowed" } else { "workload:main" });
+            let site_ops: BTreeMap<String, u32> = prog.sites.iter().map(|s| (format!("{}", s.jmp), s.ops)).collect();
+            for s in &prog.sites {
+                rep.obs(&format!("call:{}", s.symbol));
+                rep.obs(&format!("chain-ops:{}", s.ops.min(12)));
+            }
+            check_program(&prog.project, arch.name(), seed, &site_ops, rep);
+            if idx < 3 && i == 0 {
+                rep.sample(json!({"arch": arch.name(), "optimized": optimize, "program": show_program(&prog.project.program.term)}));
+            }
+        }
+    })
+}
+
+fn replay(_cfg: &Cfg, case: &Value) -> Report {
+    let mut rep = Report::new();
+    match project_from_json(&case["project"]) {
+        Ok(project) => {
+            let arch = case["arch"].as_str().unwrap_or("x64").to_string();
+            let seed = case["seed"].as_u64().unwrap_or(1);
+            let site_ops: BTreeMap<String, u32> = case["site_ops"].as_object().map(|o| o.iter().map(|(k, v)| (k.clone(), v.as_u64().unwrap_or(0) as u32)).collect()).unwrap_or_default();
+            check_program(&project, &arch, seed, &site_ops, &mut rep);
+        }
+        Err(e) => rep.note(format!("cannot parse replay case: {e}")),
+    }
+    rep
 }
